@@ -20,7 +20,7 @@ func main() {
 	defer sn.CleanupScratch()
 	nh := r.N(120, 3000)
 	o := gen.DefaultOpts()
-	so := hist.StepOpts{Reopen: true, Pool: true, Mine: true}
+	so := hist.StepOpts{Reopen: true, Pool: true, Mine: true, Engine: true}
 	kinds := map[string]bool{}
 	hist.RunHistoriesX(r, nh, o, so, 10, 40, []hist.Auditor{hist.TwinAuditor, hist.CanonAuditor}, func(s *hist.SUT, op hist.Op) []hist.Problem {
 		return hist.MustSucceed(op)
